@@ -79,6 +79,33 @@ func c14Model(r *rand.Rand) *openfgav1.AuthorizationModel {
 		}
 		m.TypeDefinitions = append(m.TypeDefinitions, td)
 	}
+	if r.Intn(7) == 0 {
+		// NOT modular (no type carries a module) but relations / conditions / types carry stray attribution, as a
+		// model assembled by hand or by another tool may: the order stays "by name", the option only adds comments
+		for _, td := range m.GetTypeDefinitions() {
+			if td.Metadata == nil {
+				continue
+			}
+			td.Metadata.Module, td.Metadata.SourceInfo = "", nil
+			if r.Intn(3) == 0 {
+				td.Metadata.SourceInfo = &openfgav1.SourceInfo{File: hostileFiles[r.Intn(len(hostileFiles))]}
+			}
+			for _, md := range td.Metadata.Relations {
+				md.Module, md.SourceInfo = "", nil
+				if r.Intn(3) > 0 {
+					md.Module = hostileModules[r.Intn(len(hostileModules))]
+					md.SourceInfo = &openfgav1.SourceInfo{File: hostileFiles[r.Intn(len(hostileFiles))]}
+				}
+			}
+		}
+		for _, cd := range m.GetConditions() {
+			cd.Metadata = nil
+			if r.Intn(2) == 0 {
+				cd.Metadata = &openfgav1.ConditionMetadata{Module: hostileModules[r.Intn(len(hostileModules))], SourceInfo: &openfgav1.SourceInfo{File: hostileFiles[r.Intn(len(hostileFiles))]}}
+			}
+		}
+		return m
+	}
 	if r.Intn(2) == 0 {
 		// attribution with hostile names
 		for _, td := range m.GetTypeDefinitions() {
